@@ -45,6 +45,9 @@ func (cl *Client) TGSExchange(tgsReq messages.TGSReq, kdcRealm string, tgt messa
 		return tgsReq, tgsRep, krberror.Errorf(err, krberror.EncodingError, "TGS Exchange Error: TGS_REP is not valid")
 	}
 
+	if len(tgsRep.Ticket.SName.NameString) < 1 {
+		return tgsReq, tgsRep, krberror.NewErrorf(krberror.KRBMsgError, "TGS Exchange Error: ticket in TGS_REP has an empty SName")
+	}
 	if tgsRep.Ticket.SName.NameString[0] == "krbtgt" && !tgsRep.Ticket.SName.Equal(tgsReq.ReqBody.SName) {
 		if referral > 5 {
 			return tgsReq, tgsRep, krberror.Errorf(err, krberror.KRBMsgError, "TGS Exchange Error: maximum number of referrals exceeded")
